@@ -293,7 +293,7 @@ def replay(ctx, spec, payload):
     if payload["kind"] in ("history", "broken-correspondence"):
         runner = ImplRunner(scenario, sd, payload["modes"])
         outs = [runner.run_op(op) for op in payload["ops"]]
-        model = run_driver([[0, scen.sd_wire(sd), payload["modes"], payload["ops"]]])[0]
+        model = run_driver([[0, scen.sd_wire(sd), payload["modes"], dyn.model_ops(payload["ops"])]])[0]
         d = dyn.diff_outs(outs, model[1], dyn.FIELDS.get(pid, dyn.FIELDS["all"]))
         print(json.dumps(dict(diff=d)))
         if d is not None:
@@ -303,7 +303,7 @@ def replay(ctx, spec, payload):
     if payload["kind"] == "step-record":
         runner = ImplRunner(scenario, sd, payload["modes"])
         outs = [runner.run_op(op) for op in payload["history"]]
-        case = dict(cmd=[0, scen.sd_wire(sd), payload["modes"], payload["history"]], ops=payload["history"],
+        case = dict(cmd=[0, scen.sd_wire(sd), payload["modes"], dyn.model_ops(payload["history"])], ops=payload["history"],
                     impl=outs, modes=payload["modes"], impl_init=runner.init_wire)
         fails, judged = judge_cases([case], MONITOR_IDX[pid]) if pid in MONITOR_IDX else ([], 0)
         rd = dyn.resync_compare([case], set(spec.get("resync_fields", set())))
